@@ -9,8 +9,9 @@ CONSTANTS Keys = {"a", "b"}
           IgnSets = {{}, {2}}
           MaxTicks = 3
           MaxArgs = {0, 1, 2}
-          DialSet = {"ok", "ok", "self", "fail", "fpempty", "fpsame", "fpnewok", "fpnewfail", "fpnewself"}
+          DialSet = {"ok", "self", "fail", "fpempty", "fpsame", "fpnewok", "fpnewfail", "fpnewself"}
           AllowClose = TRUE
           D = 16
+          Ops = {"Call", "Emit", "Dial", "End", "Cancel", "Drain", "Tick", "Close"}
 INVARIANTS GAllClosed
 CHECK_DEADLOCK FALSE
